@@ -66,8 +66,7 @@ def build(fcp, outdir, sanitize=False):
     os.makedirs(CACHE, exist_ok=True)
     cached = os.path.join(CACHE, key)
     exe = os.path.join(outdir, "drv")
-    if os.path.exists(cached):
-        shutil.copy(cached, exe)
+    if cache_fetch(cached, exe):
         return "ok", exe
     shutil.copy(DRIVER, os.path.join(outdir, "cpp_driver.cpp"))
     p = subprocess.run(cxx + ["-I", ".", "-o", "drv", "cpp_driver.cpp"], cwd=outdir, capture_output=True, text=True)
@@ -91,12 +90,39 @@ def build(fcp, outdir, sanitize=False):
         if p.returncode != 0:
             err = [l for l in p.stderr.split("\n") if "error" in l]
             return "compile-error", "%s does not compile on its own: %s" % (h, err[0] if err else p.stderr[:400])
-    # bound the cache
-    ents = sorted((os.path.getmtime(os.path.join(CACHE, e)), e) for e in os.listdir(CACHE))
-    while len(ents) > 60:
-        os.remove(os.path.join(CACHE, ents.pop(0)[1]))
-    shutil.copy(exe, cached)
+    cache_store(exe, cached, 60)
     return "ok", exe
+
+
+def cache_fetch(cached, exe):
+    """copy a cached executable; several check processes share the cache (another one may evict the entry at any time)"""
+    try:
+        shutil.copy(cached, exe)
+        return True
+    except FileNotFoundError:
+        return False
+
+
+def cache_store(exe, cached, bound):
+    """bound the cache, then publish the new entry atomically (a reader never sees half a file)"""
+    d = os.path.dirname(cached)
+    ents = []
+    for e in os.listdir(d):
+        if e.startswith(".tmp"):
+            continue
+        try:
+            ents.append((os.path.getmtime(os.path.join(d, e)), e))
+        except FileNotFoundError:
+            pass
+    ents.sort()
+    while len(ents) > bound:
+        try:
+            os.remove(os.path.join(d, ents.pop(0)[1]))
+        except FileNotFoundError:
+            pass
+    tmp = os.path.join(d, ".tmp-%d-%s" % (os.getpid(), os.path.basename(cached)))
+    shutil.copy(exe, tmp)
+    os.replace(tmp, cached)
 
 
 def run(exe, lines, timeout=300, per_line=15):
